@@ -53,6 +53,9 @@ class Ctx:
         self.samples = []
         self.notes = {}
         self.class_counts = {}
+        self.selftest = int(os.environ.get("VERIF_SELFTEST", "0"))   # > 0: corrupt that many recorded results per trace and demand that each is rejected
+        self.self_corrupted = 0
+        self.self_missed = []
 
     @property
     def thorough(self):
@@ -222,6 +225,81 @@ def parse_ev(out):
     return res
 
 
+
+# ---- self-test of the binding: corrupt recorded results and demand that trace validation rejects exactly those events
+CORRUPT_FIELDS = {
+    "verify": ["got"], "scmin": ["got"], "smallorder": ["got"], "mul8": ["got"], "equal": ["got"],
+    "sign": ["results"], "opts": ["surface"], "batch": ["result"], "obs": ["val"],
+    "field": ["out", "bytes"], "scalar": ["out", "bytes", "digits", "flag"], "group": ["out", "xaddy", "matches"], "formula": ["out"],
+    "decode": ["ok"], "pack": ["out"], "edpub2x": ["ok"], "x25519": ["got", "err"], "edpriv2x": ["out"],
+    "api": ["outcome"], "genkey": ["consumed"], "access": ["fresh"], "call": ["res"], "heap": ["res"],
+}
+
+
+def _flip(v):
+    """returns a value that differs from v in one place (None if v cannot be corrupted meaningfully)"""
+    if isinstance(v, bool):
+        return not v
+    if isinstance(v, int):
+        return v ^ 1
+    if isinstance(v, str):
+        return v + "~"
+    if isinstance(v, list) and v:
+        f = _flip(v[0])
+        return None if f is None else [f] + v[1:]
+    if isinstance(v, dict) and v:
+        for k in ("sig", "ok", "valid", "result", "res", "err", "value"):
+            if k in v:
+                f = _flip(v[k])
+                if f is not None:
+                    d = dict(v)
+                    d[k] = f
+                    return d
+    return None
+
+
+def corrupt_group(ev):
+    """events that the trace spec compares with EACH OTHER (the first observation of a class is remembered): a corrupted
+    one may be blamed on a later, untouched member of its class"""
+    if ev.get("op") == "obs":
+        return "obs/" + str(ev.get("key"))
+    if "sha" in ev and "shape" in ev:
+        return "ct/%s/%s/%s" % (ev.get("cfg"), ev.get("op"), json.dumps(ev.get("shape"), sort_keys=True))
+    return None
+
+
+def corrupt_event(ev):
+    fields = CORRUPT_FIELDS.get(ev.get("op"), [])
+    if "sha" in ev and "shape" in ev:
+        fields = ["sha"]
+    for f in fields:
+        if f in ev:
+            nv = _flip(ev[f])
+            if nv is not None:
+                ev = dict(ev)
+                ev[f] = nv
+                return ev, f
+    return None, None
+
+
+def corrupt_lines(ctx, part, k, salt):
+    """corrupt up to k events of a shard; returns (new lines, {1-based index: field})"""
+    import random
+    rnd = random.Random("%s/%s/%s" % (ctx.prop, ctx.seed, salt))
+    idx = list(range(len(part)))
+    rnd.shuffle(idx)
+    out, done = list(part), {}
+    for i in idx:
+        if len(done) >= k:
+            break
+        ev = json.loads(part[i])
+        nev, f = corrupt_event(ev)
+        if nev is not None:
+            out[i] = json.dumps(nev)
+            done[i + 1] = f
+    return out, done
+
+
 def validate_trace(ctx, module, cfg, trace, shards=None, timeout=3000, per_shard_workers=3, classify=None,
                    presharded=None, countable=lambda ev: ev.get("op") not in ("entry", "note")):
     """R3: validate an ndjson trace against the TLA+ trace spec, sharded over processes.
@@ -250,6 +328,18 @@ def validate_trace(ctx, module, cfg, trace, shards=None, timeout=3000, per_shard
             files.append((fn, part))
     if not files:
         raise Infra("empty trace " + str(trace))
+    corrupted = {}
+    if ctx.selftest:
+        nf = []
+        per = max(1, (ctx.selftest + len(files) - 1) // len(files))
+        for fn, part in files:
+            npart, done = corrupt_lines(ctx, part, per, os.path.basename(fn))
+            cfn = fn + ".selftest"
+            open(cfn, "w").write("\n".join(npart) + "\n")
+            nf.append((cfn, npart))
+            corrupted[cfn] = done
+            ctx.self_corrupted += len(done)
+        files = nf
     from concurrent.futures import ThreadPoolExecutor
     t = time.time()
 
@@ -278,7 +368,19 @@ def validate_trace(ctx, module, cfg, trace, shards=None, timeout=3000, per_shard
         for ev in evs:       # driver notes: unexpected panics / errors of the library, broken neighbours in a batch
             if ev.get("op") == "note":
                 mism.append((ev, ev.get("what", "")))
+        # self-test: every corrupted result must have been rejected - as a MISMATCH, or as a NOTE where the spec compares at the
+        # transcription level only, or on another member of its comparison class
+        noted = set(int(x) for x in re.findall(r'<<\s*"NOTE",\s*(\d+)', out)) if corrupted.get(fn) else set()
+        affected = set()
+        for i, f in corrupted.get(fn, {}).items():
+            grp = corrupt_group(evs[i - 1])
+            members = [j for j in range(1, len(evs) + 1) if grp is not None and corrupt_group(evs[j - 1]) == grp] or [i]
+            affected.update(members)
+            if not any(seen.get(j, ("", ""))[0] == "MISMATCH" or j in noted for j in members):
+                ctx.self_missed.append((os.path.basename(fn), i, f, evs[i - 1].get("op"), evs[i - 1].get("f", evs[i - 1].get("api", ""))))
         for i, (st, detail) in seen.items():
+            if i in affected:
+                continue
             ev = evs[i - 1]
             if classify:
                 k = classify(ev)
@@ -367,6 +469,11 @@ def finish(ctx, level_text_rule, assumptions, extra_cov=None):
         "coverage": cov, "assumptions": assumptions, "wall_s": round(time.time() - ctx.t0, 1),
         "violations": len(ctx.violations),
     }
+    if ctx.selftest:
+        print("SELFTEST property=%s corrupted=%d rejected=%d" % (ctx.prop, ctx.self_corrupted, ctx.self_corrupted - len(ctx.self_missed)))
+        for m in ctx.self_missed[:20]:
+            print("  SELFTEST-MISS %s event %d field %s (%s %s)" % m)
+        sys.exit(1 if ctx.violations else (2 if ctx.self_missed or ctx.self_corrupted == 0 else 0))
     os.makedirs(os.path.join(VERIF, "evidence"), exist_ok=True)
     json.dump(ev, open(os.path.join(VERIF, "evidence", ctx.prop + ".json"), "w"), indent=1)
     ctx.log("done: states=%d events=%d violations=%d known=%d" % (ctx.states, ctx.events, len(ctx.violations), len(ctx.known_hits)))
